@@ -6,11 +6,14 @@ declarative definition (qualified node sets) on every document of the bounded un
 (invariant StreamingIsDeclarative), errors are never retracted.  B: every finished document TLC
 enumerates is rendered (typed fields with different lexical forms of equal values, fields on
 attributes or child elements, inner / outer declaring element, two selector spellings) and the
-real verdict and error kinds are compared with the spec's.
+real verdict and error kinds are compared with the spec's.  C: the ident.* hook events (counter reset /
+increase, key-reference resolution) recorded during real validations are validated in batch against
+Trace_Identity.tla, which walks the known document with the machine's own actions.
 """
 from __future__ import annotations
 
 import collections
+from decimal import Decimal
 import itertools
 import json
 
@@ -144,6 +147,94 @@ def judge(job):
     return out
 
 
+# ----------------------------------------------------------------------------- traces (C)
+VALUE_CLASS = {"integer": lambda x: {1: "v1", 2: "v2"}.get(int(x)),
+               "decimal": lambda x: {"1": "v1", "1.0": "v1", "2.5": "v2"}.get(str(Decimal(x).normalize()) if Decimal(x) != Decimal(x).to_integral() else str(int(Decimal(x)))),
+               "string": lambda x: {"x": "v1", "y": "v2"}.get(x)}
+
+
+def trace_job(job):
+    """One real validation with the ident.* hooks on: -> trace record for Trace_Identity.tla (or None)."""
+    rec, ver, typ, loc = job
+    from xmlschema import _verif_trace as vt
+    s, err = cm.build(ver, schema_xsd(rec["nf"], rec["kind"], rec["level"], typ, loc, "child"))
+    xml = doc_xml(rec["doc"], typ, loc)
+    ev = vt.start()
+    try:
+        list(s.iter_errors(xml))
+    finally:
+        vt.stop()
+    out = []
+    for e in ev:
+        if not e["ev"].startswith("ident."):
+            continue
+        ident = "K" if e["identity"].endswith("}K") else "R"
+        if e["ev"] == "ident.reset":
+            out.append({"e": "reset", "id": ident, "t": [], "n": 0})
+        elif e["ev"] == "ident.add":
+            t = [VALUE_CLASS[typ](x) or f"?{x}" for x in e["fields"]]
+            out.append({"e": "add", "id": ident, "t": t, "n": e["count"]})
+        else:
+            out.append({"e": "resolve", "id": ident, "t": [], "n": e["dangling"]})
+    return {"doc": rec["doc"], "ev": out, "about": f"{ver} {rec['kind']}/{rec['level']}/nf{rec['nf']}/{typ}/{loc}",
+            "xml": xml}
+
+
+def validate_identity_traces(ctx, nf, kind, level, trs, tag):
+    import re
+    path = ctx.work / f"ident_{tag}_{len(ctx.tlc_runs)}.json"
+    path.write_text(json.dumps([{"doc": t["doc"], "ev": t["ev"]} for t in trs]))
+    cfg = ("SPECIFICATION TSpec\nCONSTRAINT Mark\nPOSTCONDITION Post\nCHECK_DEADLOCK FALSE\nCONSTANTS\n"
+           f' NF = {nf}\n KeyKind = "{kind}"\n Level = "{level}"\n MaxRows = 99\n MaxScopes = 99\n'
+           ' RowKinds = {"k", "f", "i", "p"}\n')
+    r = ctx.tlc("Trace_Identity", cfg_text=cfg, workers=1, env={"TRACE_FILE": str(path)}, tag=f"trace-{tag}")
+    flat = re.sub(r"\s+", " ", r.out)
+    m = re.search(r'<< ?"rejected", \{([^}]*)\} ?>>', flat)
+    if not m:
+        raise MachineryError("identity trace validation produced no verdict")
+    rejected = [int(x) for x in m.group(1).replace(" ", "").split(",") if x]
+    reasons = {}
+    for t, l, why in re.findall(r'<< ?(\d+), (\d+), "([^"]+)" ?>>', flat):
+        reasons.setdefault(int(t), (int(l), why))
+    return [(t, *reasons.get(t, (0, "no behaviour of the streaming machine explains the recorded events")))
+            for t in rejected]
+
+
+def trace_phase(ctx: Ctx, recs, thorough):
+    import collections
+    groups = collections.defaultdict(list)
+    pick = [r for i, r in enumerate(recs) if thorough or i % 3 == 0]
+    jobs = [(r, "1.0" if i % 2 else "1.1", ("integer", "string", "decimal")[i % 3], "attr" if i % 4 < 2 else "elem")
+            for i, r in enumerate(pick)]
+    for (r, *_), tr in zip(jobs, ctx.pmap(trace_job, jobs)):
+        groups[(r["nf"], r["kind"], r["level"])].append(tr)
+    n = 0
+    for (nf, kind, level), trs in sorted(groups.items()):
+        n += len(trs)
+        for t, l, why in validate_identity_traces(ctx, nf, kind, level, trs, f"{nf}{kind}{level}"):
+            tr = trs[t - 1]
+            ctx.report({"driver": "trace", "about": tr["about"], "doc": tr["doc"], "events": tr["ev"], "xml": tr["xml"],
+                        "event": l, "observed": why}, f"identity trace {tr['about']} rejected at event {l}: {why}  "
+                       f"[{tr['xml']}]")
+        # the binding is real: drop the resolve events / bump a count -> rejected
+        probe = json.loads(json.dumps(trs[:30]))
+        touched = set()
+        for i, t in enumerate(probe):
+            k = [j for j, e in enumerate(t["ev"]) if e["e"] == ("resolve" if i % 2 else "add")]
+            if k:
+                if i % 2:
+                    del t["ev"][k[0]]
+                else:
+                    t["ev"][k[0]]["t"] = ["v2" if x == "v1" else "v1" for x in t["ev"][k[0]]["t"]]
+                touched.add(i + 1)
+        rej = {t for t, _, _ in validate_identity_traces(ctx, nf, kind, level, probe, f"selftest-{nf}{kind}{level}")}
+        if not touched <= rej:
+            raise MachineryError(f"corrupted identity traces accepted: {sorted(touched - rej)[:5]}")
+    ctx.impl_traces += n
+    some = next(iter(groups.values()))[0]
+    ctx.sample({"trace": some["about"], "xml": some["xml"], "events": some["ev"][:8]})
+
+
 def variants_for(i, thorough):
     types = list(LEX)
     if thorough:
@@ -199,6 +290,7 @@ def run(ctx: Ctx):
                         "xsd": schema_xsd(rec["nf"], rec["kind"], rec["level"], typ, loc, sel),
                         "observed": what},
                        f"{ver} {rec['kind']}/{rec['level']}/{typ}/{loc}/{sel}: {what}")
+    trace_phase(ctx, recs, thorough)
     for rec in recs[:: max(1, len(recs) // 4)][:4]:
         ctx.sample({"constraint": rec["kind"], "level": rec["level"], "doc": rec["doc"],
                     "expected_error_kinds": rec["kinds"]})
